@@ -1036,9 +1036,10 @@ func (e *SpecEnv) evalCall(x *SX) (*SV, error) {
 			if !ok {
 				return nil, fmt.Errorf("last() needs a channel")
 			}
+			// (the record is read in the evaluation state; the channel expression keeps its own, as for sent())
 			st := e.stateOf(v)
 			key := "ghost:last<" + chanKey(v.T) + ">"
-			return &SV{V: st.loadKey(PHeap, key, st.toTerm(e.value(v), v.T), nil, ct.Elem(), nil), T: ct.Elem()}, nil
+			return &SV{V: e.st.loadKey(PHeap, key, st.toTerm(e.value(v), v.T), nil, ct.Elem(), nil), T: ct.Elem()}, nil
 		case "fresh":
 			// fresh(x): the object x refers to (pointer, slice backing array) was allocated during this call
 			v, err := e.eval(args[0])
